@@ -118,6 +118,15 @@ CLAIMED["C20"] = dict(category="fault_enumeration",
          "from the delivered bytes for k=32.",
     design="6/C20", technique="TLA+ fault-space model + TLC; exhaustive fault injection replay",
     note="Trusted: TLC; crypto/ed25519.GenerateKey reads exactly 32 bytes (self-calibrated at run time).")
+CLAIMED["C07"] = dict(category="model_checking",
+    text="SymbolRules.tla states the published symbol rules (own copy of the default table, offset 1024, new-symbols-only tables, no forward "
+         "references, operator code table); Symbols.tla models the builders' interning mechanism and TLC proves its output well formed and "
+         "decoding to the input for all short histories. Generated contents (all term types, expressions, sets, shared symbols, 1-4 blocks) "
+         "go through the real builders; the bytes are decoded by an independent protowire reader and TLC (TraceWire) checks WellFormed and "
+         "Decode(wire) = content. Round trip, byte-identical re-serialization, version gate and byte-stability over sibling histories are "
+         "judged on the real library.",
+    design="6/C07", technique="TLA+ symbol-table rules + mechanism model (TLC); TLC trace validation of independently decoded wire bytes",
+    note="Trusted: TLC, protowire, the harness' hand-written reader of pb/biscuit.proto. Bounds: histories <=3 blocks x <=2/3 uses (model); generated contents 1-4 blocks.")
 CLAIMED["C18"] = dict(category="model_checking",
     text="Lifecycle.tla models SerializePolicies/LoadPolicies; TLC checks SnapshotEquiv and SaveRefusedIffEvaluated over all histories "
          "(3x3 tokens x 24 contents x evaluated/unevaluated) and exports them; replay saves on the real authorizer, loads into a fresh one "
